@@ -312,6 +312,9 @@ fn check_case(idx: u64, d: &DefCtx, call: &[Tok], full_state: bool, distinct: &d
                 bits.push(if on { '1' } else { '0' });
             }
             acc.count("matching_calls");
+            if f.partial_delimiter_restarted_with_2 {
+                acc.count("delimiter_restarted_keeping_two_or_more_tokens");
+            }
             if call.contains(&Tok::Ch('a', 12)) {
                 acc.count("matching_call_with_delimiter_character_of_other_catcode");
             }
@@ -615,6 +618,39 @@ fn main() {
         after_family(&mut ctx);
     }
 
+    // F1c: long delimiters (borders of length >= 2: the part of the KMP prefix function that 1-2 token delimiters never use)
+    {
+        let syms = [A, B, DOT];
+        let (dmax, cmax) = ctx.pick((4u32, 8u32), (5u32, 10u32));
+        let mut specs = vec![];
+        for len in 3..=dmax {
+            for i in 0..3u64.pow(len) {
+                let delim: Vec<Tok> = vcore::digits(i, &vec![3; len as usize]).into_iter().map(|j| syms[j as usize]).collect();
+                specs.push(DefSpec { kind: Kind::Def, prefix: vec![], params: vec![Some(delim.clone())], hash: false, body: revealing_body(1) });
+                specs.push(DefSpec { kind: Kind::Def, prefix: vec![], params: vec![Some(delim), None], hash: false, body: revealing_body(2) });
+            }
+        }
+        let defs = build_ctxs(specs, &mut ctx);
+        let ncalls = vcore::strings_upto(3, cmax);
+        let n = defs.len() as u64 * ncalls;
+        let dref = &defs;
+        ctx.family(
+            "long-delimiters",
+            &format!("{} definitions (one parameter delimited by every string of length 3..{dmax} over {{a b .}}, alone and followed by an undelimited parameter) x every call string of length <= {cmax} over {{a b .}} ({ncalls} strings), followed by \\relax Z", defs.len()),
+            n,
+            |i, acc| {
+                let d = &dref[(i / ncalls) as usize];
+                let call: Vec<Tok> = vcore::nth_string(3, i % ncalls).into_iter().map(|j| syms[j as usize]).collect();
+                check_case(i, d, &call, false, &|_| true, acc);
+                acc.count("long_delimiter_cases");
+                if i % 300_007 == 19 {
+                    acc.sample(i, || json!({"program": format!("{}\\xa\\capture\\m<{}>\\relax Z\\END", d.head, mm::show(&call))}));
+                }
+            },
+        );
+        after_family(&mut ctx);
+    }
+
     // F2: argument tuples by shape
     {
         let kinds: Vec<Option<Vec<Tok>>> = vec![None, Some(vec![DOT]), Some(vec![A, B]), Some(vec![A, A]), Some(vec![X]), Some(vec![SP])];
@@ -818,6 +854,8 @@ fn main() {
     ctx.require("brace_to_brace_argument_that_is_not_one_group", "an argument starts with { and ends with } without being a single group (the D3 shape)");
     ctx.require("delimiter_partially_matched_then_abandoned", "a proper prefix of the delimiter matched at depth 0 and was then contributed to the argument (§397)");
     ctx.require("delimiter_restarted_inside_abandoned_match", "a self-overlapping delimiter re-started inside the abandoned tokens (the KMP fallback path)");
+    ctx.require("delimiter_restarted_keeping_two_or_more_tokens", "after a failed partial match the delimiter re-started with >= 2 tokens already matched (needs a delimiter with a border of length >= 2, e.g. aaab, ababb)");
+    ctx.require("long_delimiter_cases", "calls of macros whose delimiter has 3 or more tokens");
     ctx.require("leading_spaces_skipped_before_undelimited", "space tokens were skipped before an undelimited argument (§393)");
     ctx.require("empty_group_argument", "an argument written {} (empty after brace stripping)");
     ctx.require("empty_delimited_argument", "a delimited argument that is empty because the delimiter follows at once");
